@@ -258,6 +258,30 @@ class Adversary(Scheduling):
         pass
 
 
+class DupFirst(Scheduling):
+    """a user algorithm that proposes the FIRST currently free machine for every ready task of the workflow - the same
+    machine several times in one call.  The Scheduler is built to defer all but one of them (its 'allocated in this
+    timestep' guard), so a run under this algorithm completes; it never proposes a busy or foreign machine."""
+
+    def __repr__(self):
+        return "DupFirst"
+
+    def run(self, cluster, clock, workflow_plan, existing_schedule, task_pool):
+        allocs = copy.copy(existing_schedule)
+        free = cluster.get_available_resources()
+        for t in workflow_plan.tasks:
+            if t.task_status is TaskStatus.UNSCHEDULED and t not in allocs and free:
+                if all(cluster.is_task_finished(p) for p in workflow_plan.graph.predecessors(t)):
+                    allocs[t] = free[0]
+        if len(workflow_plan.tasks) == 0:
+            workflow_plan.status = WorkflowStatus.FINISHED
+            cluster.release_batch_resources(workflow_plan.id)
+        return allocs, workflow_plan.status, task_pool
+
+    def to_df(self):
+        pass
+
+
 class ReserveOnlyBatch(BatchProcessing):
     """a user algorithm that reserves machines through Cluster.provision_batch_resources (BatchProcessing's policy) but
     leaves the clean-up of the reservation to the Scheduler, as the Cluster documentation allows"""
@@ -331,6 +355,8 @@ def make_alg(a):
         return DynamicSchedulingFromPlan()
     if k == 'greedy':
         return GreedySchedulingFromPlan()
+    if k == 'dupfirst':
+        return DupFirst()
     if k == 'adversary':
         return Adversary(a.get('choices', [0]), a.get('honest', True))
     raise ValueError(k)
@@ -421,6 +447,8 @@ def probe(sim, mon, snaps):
         row = true_row(sim)
         row['t'] = env.now
         row['statuses'] = [o.status.value for o in tel.observations]
+        # C12, independent of the buffers' own counters: data streamed in and not yet removed (both tiers together)
+        row['resident'] = resident
         snaps.append(row)
         yield env.timeout(1)
 
@@ -516,7 +544,7 @@ def build(sc):
     STATE.clear()
     STATE.update(batch=(sc['alg']['kind'] in ('batch', 'reserve_only')), parts=sc['alg'].get('parts', 1), sim=None,
                  obs_index={f'o{i + 1}': i for i in range(nobs)}, names=sc.get('names'),
-                 shipped_alg=(sc['alg']['kind'] in ('batch', 'queue', 'dynamic', 'greedy')), split=sc['alg'].get('split'), min_res=sc['alg'].get('min', 1))
+                 shipped_alg=(sc['alg']['kind'] in ('batch', 'queue', 'dynamic', 'greedy')), abort_counts=(sc['alg']['kind'] == 'dupfirst'), split=sc['alg'].get('split'), min_res=sc['alg'].get('min', 1))
     gl = sc['graphs'] if len(sc['graphs']) > 1 else sc['graphs'] * nobs
     if sc['alg']['kind'] in ('dynamic', 'greedy') or sc.get('static'):
         model = StubStatic(graphs, sc['assign'], sc['ests'])
@@ -575,6 +603,9 @@ def start_with_cap(sim, mon, cap):
                 tb = tb.tb_next
             e = e.__cause__ or e.__context__
         mon.tag(f'C05/raises/{type(ex).__name__}@{site}')
+        if STATE.get('abort_counts'):
+            # duplicated proposals of a free machine are deferred by the Scheduler, never an error: the run must complete
+            mon.tag(f'C04/run-aborted-by-exception/under-duplicate-proposals-of-a-free-machine/{type(ex).__name__}@{site}')
         if STATE.get('shipped_alg'):
             # a run aborted by an exception has not executed everything once and does not return at all; under a user
             # algorithm an error may be the legitimate rejection of an illegal proposal (C01), so only shipped ones count
@@ -761,10 +792,12 @@ def final_oracles(sc, res):
         mon.tag('C12/row-count-differs-from-timesteps')
     for row, snap in zip(df.rows, snaps):
         for k, v in snap.items():
-            if k in ('t', 'statuses'):
+            if k in ('t', 'statuses', 'resident'):
                 continue
             if row.get(k) != v:
                 mon.tag(f'C12/{k}')
+        if row.get('hot_buffer') is not None and row['hot_buffer'] + row['cold_buffer'] != hot.total_capacity + cold.total_capacity - snap['resident']:
+            mon.tag('C12/buffer-columns-differ-from-resident-data')
     # ---- C13 events
     ev = sim.monitor.events.rows
     KEYS = [('instrument', 'telescope', 'started'), ('instrument', 'telescope', 'finished'), ('buffer', 'buffer', 'added'),
@@ -878,8 +911,11 @@ def run_horizon(sc, segments):
             mon.tag('C12/row-count-differs-from-timesteps')
         for row, snap in zip(rows, snaps):
             for k, v in snap.items():
-                if k not in ('t', 'statuses') and row.get(k) != v:
+                if k not in ('t', 'statuses', 'resident') and row.get(k) != v:
                     mon.tag(f'C12/{k}')
+            hb, cb = sim.buffer.hot[0], sim.buffer.cold[0]
+            if row.get('hot_buffer') is not None and row['hot_buffer'] + row['cold_buffer'] != hb.total_capacity + cb.total_capacity - snap['resident']:
+                mon.tag('C12/buffer-columns-differ-from-resident-data')
         seen = set()
         for e in sim.monitor.events.rows:
             key = (e['time'], e['actor'], e['observation'], e['event'], e['resource'])
